@@ -43,6 +43,32 @@ claim('C22',
       'TLA+ exact-rational oracle + TLC scenario enumeration + replay of every scenario into the driver', '5.8, 6/C22')
 
 
+SYS_NOTE = ('Generated models are integer/rational affine (explicit and implicit components), so the TLA+ denotation is exact; '
+            'floats are quantised to rationals in the harness (1e-9 relative, Krylov 1e-7); an independent fractions.Fraction '
+            'evaluation cross-checks the TLA+ oracle on every case; no MPI/distributed variables.')
+
+claim('C01',
+      'spec/sys/OMModel.tla gives the exact denotation of a model (NdIndex composition of src_indices chains, unit maps, affine '
+      'components, one ordered pass for feed-forward models, fixpoint/linear-system characterisation for feedback, TotalAll, '
+      'Block, ScaledBlock). Seeded generated models are run under several (mode, linear solver, assembled jacobian type, return '
+      'format, driver scaling) configurations and TLC (OMJudge.tla) judges every observed total-derivative block exactly.',
+      SYS_NOTE, 'TLA+ system specification as exact oracle; TLC validates observations of real runs on generated models', '5.7, 6/C01')
+
+claim('C04',
+      'TLC evaluates InVal (fac * source[ConnPos(chain)] + off) of OMModel.tla on the OBSERVED outputs of generated hierarchies '
+      '(connect with src_indices, promotion chains with src_indices/src_shape, units with offsets, cycles) and compares with every '
+      'observed input after run_model; intercepted component evaluations inside the run are judged with the specification\'s '
+      'positions and unit maps in floating point.',
+      SYS_NOTE + ' NonlinearBlockJac: only the final state (inputs are as of the last transfer by design). Continuous variables only.',
+      'TLA+ system specification as exact oracle; TLC validates observed inputs/outputs of real runs', '5.7, 6/C04')
+
+claim('C08',
+      'The system specification has no solver scaling, so its denotation is the unscaled truth; generated models with random scalar/array '
+      'ref, ref0 (negative spans, all scalar/array mixes) and res_ref are run under several solver stacks and TLC judges outputs, '
+      'inputs and total derivatives against that denotation.',
+      SYS_NOTE, 'TLA+ system specification as exact oracle; TLC validates observations of scaled real runs', '5.7, 6/C08')
+
+
 def main():
     checks = []
     for pid in ALL:
